@@ -7,6 +7,7 @@ import (
 	"regexp"
 	"sort"
 	"strings"
+	"sync"
 	"testing"
 
 	v3 "github.com/projectcalico/api/pkg/apis/projectcalico/v3"
@@ -322,6 +323,10 @@ func newC28Bird() *c28Bird {
 		c.cache[k] = v
 	}
 	c.cache[fmt.Sprintf("/calico/bgp/v1/host/%s/network_v4", NodeName)] = "1.1.1.0/24"
+	c.cache[fmt.Sprintf("/calico/bgp/v1/host/%s/ip_addr_v4", NodeName)] = "1.1.1.1"
+	c.cache["/calico/bgp/v1/global/as_num"] = "64512"
+	c.syncedOnce = true // in sync: every update bumps the cache revision and wakes the template watchers
+	c.watcherCond = sync.NewCond(&c.cacheLock)
 	return &c28Bird{c: c}
 }
 
@@ -354,6 +359,15 @@ func (b *c28Bird) setBGP(name string, present bool, value string) {
 		u.Value, u.Revision, u.UpdateType = bc, "1", api.UpdateTypeKVUpdated
 	}
 	b.apply(u)
+}
+
+// render is what a template render does: the real GetBirdBGPConfig, including its per-IP-version config cache.
+func (b *c28Bird) render(ipv int) string {
+	cfg, err := b.c.GetBirdBGPConfig(ipv)
+	if err != nil {
+		return "error: " + err.Error()
+	}
+	return fmt.Sprint(cfg.KernelFilterForIPPools)
 }
 
 func (b *c28Bird) kernel(ipv int) ([]string, error) {
@@ -477,9 +491,8 @@ func c28Histories(c *vk.Ctx) {
 		if v, ok := freshCache[st]; ok {
 			return v
 		}
-		k, err := c28FreshBird(st).kernel(4)
+		v := c28FreshBird(st).render(4)
 		c.Add("transitions", 1)
-		v := fmt.Sprintf("%v|%v", k, err)
 		freshCache[st] = v
 		return v
 	}
@@ -495,9 +508,8 @@ func c28Histories(c *vk.Ctx) {
 			perr = vk.Catch(func() error {
 				for _, e := range hist {
 					b.event(&st, e)
+					got = b.render(4) // a render after every update (fills / invalidates the config cache)
 				}
-				k, err := b.kernel(4)
-				got = fmt.Sprintf("%v|%v", k, err)
 				return nil
 			})
 			c.Add("states", 1)
@@ -533,6 +545,110 @@ func c28Histories(c *vk.Ctx) {
 	if c.Expired() {
 		c.Capped("deadline in confd histories")
 	}
+	c28Interleavings(c, events, fresh)
+}
+
+// c28Interleavings: a render (GetBirdBGPConfig) split at its internal read points with ONE syncer update delivered
+// through the real onUpdates in between, followed by the re-render that the update triggers (the update wakes the
+// template watchers).  The re-render must equal a fresh-start render of the latest state.
+func c28Interleavings(c *vk.Ctx, events []c28BEvent, fresh func(c28BState) string) {
+	// is the render-point hook compiled in?
+	before := verifRenderCalls
+	newC28Bird().render(4)
+	hook := verifRenderCalls > before
+	c.Extra("confd_render_point_hook_active", hook)
+	if !hook {
+		c.Capped("render-point hook not applicable to this tree (GetBirdBGPConfig changed): updates landing in the middle of a render are not explored")
+		return
+	}
+	defer func() { verifRenderHook = nil }()
+	type prefix struct {
+		evs      []c28BEvent
+		rendered []bool // render after that event?
+	}
+	prefixes := []prefix{{}}
+	for _, e0 := range events {
+		prefixes = append(prefixes, prefix{[]c28BEvent{e0}, []bool{true}}) // warm cache, render in flight hits it
+		for _, e1 := range events {
+			prefixes = append(prefixes, prefix{[]c28BEvent{e0, e1}, []bool{true, false}}) // warm but stale cache
+		}
+	}
+	if c.Thorough() {
+		for _, e0 := range events {
+			for _, e1 := range events {
+				for _, e2 := range events {
+					prefixes = append(prefixes, prefix{[]c28BEvent{e0, e1, e2}, []bool{true, true, false}})
+				}
+			}
+		}
+	}
+	reached := map[int]int{}
+	for _, pf := range prefixes {
+		for _, ev := range events {
+			for point := 0; point < 4; point++ {
+				if c.Expired() {
+					c.Capped("deadline in confd render interleavings")
+					return
+				}
+				b := newC28Bird()
+				b.apply(c28StaticPool())
+				st := c28BState{"-", "-", "-"}
+				fired := false
+				var inflight, rerender string
+				perr := vk.Catch(func() error {
+					for i, e := range pf.evs {
+						b.event(&st, e)
+						if pf.rendered[i] {
+							b.render(4)
+						}
+					}
+					verifRenderHook = func(cl *client, p int) {
+						if cl == b.c && p == point && !fired {
+							fired = true
+							b.event(&st, ev) // the syncer's update lands here, through the real onUpdates
+						}
+					}
+					inflight = b.render(4)
+					verifRenderHook = nil
+					if !fired {
+						return nil
+					}
+					rerender = b.render(4) // the update woke the watchers: templates render again
+					return nil
+				})
+				verifRenderHook = nil
+				c.Add("transitions", int64(len(pf.evs)+2))
+				hist := fmt.Sprintf("%v (rendered after: %v); render with %v delivered at point %d; re-render", pf.evs, pf.rendered, ev, point)
+				if perr != nil {
+					c.Violation("C28:confd-render-interleaving-panics", map[string]any{"scenario": hist, "panic": perr.Error()})
+					continue
+				}
+				if !fired {
+					c.Outcome(fmt.Sprintf("interleave|point=%d|not-reached", point))
+					continue // e.g. cache hit: the render returns before this point
+				}
+				reached[point]++
+				c.Add("states", 1)
+				c.Nontrivial("interleave|" + hist)
+				want := fresh(st)
+				c.Outcome(fmt.Sprintf("interleave|point=%d|inflight-is-new=%v|ok=%v", point, inflight == want, rerender == want))
+				if rerender != want {
+					kind := "set"
+					if ev.Val == "-" {
+						kind = "delete"
+					}
+					c.Violation(fmt.Sprintf("C28:bird-filter-stale-after-update-during-render:%s-%s:point%d", ev.Res, kind, point), map[string]any{
+						"scenario": hist, "final_state": st, "in_flight_render": inflight, "re_render": rerender, "fresh_start_render_of_final_state": want})
+				}
+			}
+		}
+	}
+	c.Extra("confd_render_points_reached", fmt.Sprint(reached))
+	for point := 0; point < 4; point++ {
+		if reached[point] == 0 {
+			c.Capped(fmt.Sprintf("render point %d was never reached", point))
+		}
+	}
 }
 
 func TestVerif_C28(t *testing.T) {
@@ -555,7 +671,8 @@ func TestVerif_C28(t *testing.T) {
 		c.Extra("confd_real_onUpdates_driven", c28RealOnUpdates)
 		c.Rule("Felix setting x BGP setting, each in {absent, Enabled, Disabled, EnabledIPIPOnly, EnabledNoEncapOnly, unrecognised} (36 pairings) x every subset of 6 IP pool shapes " +
 			"(no-encap Never/Never and unset/unset, IPIP Always and CrossSubnet, VXLAN Always and CrossSubnet; IPv6: the 4 non-IPIP shapes) x IP version {4,6} x disableBGPExport {false,true}; Felix's side includes the real calculation graph (does a remote-workload route for a block of the pool reach the dataplane). " +
-			"confd update histories: every sequence up to depth 3 (thorough 4) over {default BGPConfiguration := absent|6 values, per-node BGPConfiguration := absent|Enabled|Disabled, pool 10.10.0.0/16 := absent|ipip|noencap|vxlan}, after every prefix the kernel filter must equal that of a fresh client in the same final state. " +
+			"confd update histories: every sequence up to depth 3 (thorough 4) over {default BGPConfiguration := absent|6 values, per-node BGPConfiguration := absent|Enabled|Disabled, pool 10.10.0.0/16 := absent|ipip|noencap|vxlan}, after every update the client renders through the real GetBirdBGPConfig (with its config cache) and the result must equal that of a fresh client in the same final state. " +
+			"confd render interleavings: prefix (none | one update+render | update+render then update) then a render split at its 4 internal read points (revision captured / BGPConfiguration read / policy derived, pools not yet read / before the cache store) with each update event delivered there through onUpdates, then the re-render the update triggers, which must equal the fresh-start render of the latest state. " +
 			"Non-trivial = at least one pool of a configurable class (IPIP/no-encap) is present.")
 		c.Assume("Felix programs a pool's cluster routes iff the real calculation graph emits a remote-workload RouteUpdate of the pool's type for a block of the pool AND the dataplane manager for that type consumes it (driver.go copies the accessors; no-encap manager iff ProgramNoEncapClusterRoutes && NoEncapNeeded; IPIP manager programs routes iff ProgramIPIPClusterRoutes && IPIP enabled; VXLAN manager iff VXLAN enabled). Only that last manager gate in felix/dataplane/linux is mirrored, not executed.")
 		c.Assume("BIRD evaluates filter calico_kernel_programming top-down, first matching statement decides, final 'accept' (bird_ipam.cfg.template); the local subnet is known (IPv4).")
